@@ -94,7 +94,7 @@ def _order_symbol_mapping(
 ) -> OrderedDict[sp.Symbol, sp.Expr]:
     return collections.OrderedDict([
         (symbol, mapping[symbol])
-        for symbol in sorted(mapping, key=lambda s: natural_sorting(s.name))
+        for symbol in sorted(mapping, key=lambda s: (natural_sorting(s.name), s.name))
     ])
 
 
